@@ -38,6 +38,10 @@ def specs_for(ctx):
         # tol_mesh an exact power of two (snapping to the grid is the identity) and a tiny tol_fun so that the mesh rule is what stops the run
         dict(D=2, target="sphere", box="sym", noise="det", options=dict(max_fun_evals=200, tol_mesh=2.0 ** -6, tol_fun=1e-12, accelerate_mesh=False), seed=ctx.seed * 10 + 5),
         dict(D=1, target="abs", box="sym", noise="det", options=dict(max_fun_evals=120, tol_mesh=0.25, tol_fun=1e-12), seed=ctx.seed * 10 + 6),
+        # a feasible set so thin that whole poll sets are rejected: a poll without a single admissible point is still a failed poll (mesh halved)
+        dict(D=2, target="sphere", box="sym", noise="det", cons="diag", x0_value=[0.5, 0.5], shift=[1.0, 1.0], options=dict(max_fun_evals=70), seed=ctx.seed * 10 + 7),
+        # noise found by the run-time test (nothing declared): success is still judged on the GP estimate
+        dict(D=2, target="sphere", box="sym", noise="auto", sigma=0.3, options=dict(max_fun_evals=90, noise_final_samples=2), seed=ctx.seed * 10 + 8),
     ]
     return specs + extra + S.panel_nondefault(ctx.seed)
 
